@@ -828,3 +828,62 @@ def unq_stream(ctx, n):
         ctx.compared()
         if out[i] != real:
             ctx.disagree({'unq': c.decode('latin-1')}, real, out[i], '_cpreqbody.unquote_plus: result differs')
+
+
+# ----------------------------------------------------------------------------------------------
+# size limit (request.body.maxbytes = 1000 on /limit) and the Host rule, through whole requests
+# ----------------------------------------------------------------------------------------------
+def limit_stream(ctx, n):
+    from . import c07
+    rng = ctx.rng
+    cases = []
+    sizes = [0, 1, 2, 997, 998, 999, 1000, 1001, 1002, 1003, 2000, 8192, 8193, 70000]
+    for _ in range(n):
+        arrived = gen.pick(rng, sizes)
+        body = ('a=' + 'x' * max(0, arrived - 2))[:arrived]
+        kind = gen.pick(rng, ['plain', 'plain', 'known', 'chunked'])
+        declared = None if kind == 'chunked' else gen.pick(rng, [arrived, arrived, arrived + 5, max(0, arrived - 1), 1000, 1001, 0])
+        req = gen._base('limit-e2e', gen.pick(rng, ['POST', 'PUT']), gen.pick(rng, ['/limit', '/d/limit']), gen.pick(rng, gen.PROTOS), [])
+        req['headers'] = [h for h in req['headers'] if h[0] != 'Content-Length']
+        if kind == 'chunked':
+            req['headers'].append(['Transfer-Encoding', 'chunked'])
+            req['rfile'] = 'chunked'
+            req['body'] = (b''.join(gen.chunk_encode(rng, body.encode('latin-1'))) + b'0\r\n\r\n').decode('latin-1')
+        else:
+            req['headers'].append(['Content-Length', str(declared)])
+            req['body'] = body
+            if kind == 'known':
+                req['rfile'] = 'known'
+        cases.append((req, 'limit 1000 %s %d' % ('N' if declared is None else declared, arrived)))
+    out = ctx.model([l for _, l in cases])
+    for i, (req, line) in enumerate(cases):
+        obs = c07.check_request(ctx, req)
+        if out is None or obs['status'] >= 500 or obs.get('skipped'):
+            continue
+        ctx.compared()
+        ctx.count('limit:%s' % obs['status'])
+        if 'st:%d' % obs['status'] != out[i]:
+            ctx.disagree(dict(req, line=line), 'st:%d' % obs['status'], out[i], 'SizedReader size limit: status differs from the model')
+
+
+def host_stream(ctx, n):
+    from . import c07
+    rng = ctx.rng
+    cases = []
+    for _ in range(n):
+        p11 = rng.random() < 0.5
+        has = rng.random() < 0.5
+        path = gen.pick(rng, ['/plain', '/d/plain', '/etag', '/file', '/form', '/json', '/stream', '/rest'])
+        req = gen._base('host-e2e', gen.pick(rng, ['GET', 'HEAD', 'DELETE']), path, 'HTTP/1.1' if p11 else 'HTTP/1.0', [])
+        if not has:
+            req['headers'] = [h for h in req['headers'] if h[0] != 'Host']
+        cases.append((req, 'host %d %d' % (1 if p11 else 0, 1 if has else 0)))
+    out = ctx.model([l for _, l in cases])
+    for i, (req, line) in enumerate(cases):
+        obs = c07.check_request(ctx, req)
+        if out is None or obs['status'] >= 500 or obs.get('skipped'):
+            continue
+        ctx.compared()
+        ctx.count('host:%s' % obs['status'])
+        if ('st:400' == out[i]) != (obs['status'] == 400):
+            ctx.disagree(dict(req, line=line), 'st:%d' % obs['status'], out[i], 'Host rule: status differs from the model')
